@@ -30,5 +30,6 @@ def main (args : List String) : IO UInt32 := do
   | ["xyz-write"] => loop stdin stdout xyzWriteLine; return 0
   | ["history"] => loop stdin stdout historyLine; return 0
   | ["build"] => loop stdin stdout buildLine; return 0
+  | ["params"] => loop stdin stdout paramsLine; return 0
   | ["atoms-oracle"] => loop stdin stdout AtomsOracle.check; return 0
   | _ => IO.eprintln "usage: optrs-model <stream>"; return 2
